@@ -711,6 +711,23 @@ func genQuoted(rng *gen.Rng, count int, emit func(Case)) {
 		}
 		w := sb.String()
 		f := gen.Pick(rng, []string{"f", "my_col", "a"})
+		if rng.Chance(1, 4) {
+			// the quoted text in the other value positions: range bound, value-list item, comparison value
+			var sb2 strings.Builder
+			for k := rng.Intn(4); k >= 0; k-- {
+				sb2.WriteString(gen.Pick(rng, quoteAlphabet))
+			}
+			w2 := sb2.String()
+			switch rng.Intn(3) {
+			case 0:
+				emit(Case{Gen: "G4-quoted-range", Kind: "quoted", S: f + `:["` + w + `" TO "` + w2 + `"]`, Aux: f, Want: w, S2: w2, Rel: "range", Idx: i})
+			case 1:
+				emit(Case{Gen: "G4-quoted-list", Kind: "quoted", S: f + `:("` + w + `" OR "` + w2 + `")`, Aux: f, Want: w, S2: w2, Rel: "list", Idx: i})
+			default:
+				emit(Case{Gen: "G4-quoted-cmp", Kind: "quoted", S: f + `:>="` + w + `"`, Aux: f, Want: w, Rel: "cmp", Idx: i})
+			}
+			continue
+		}
 		switch rng.Intn(4) {
 		case 0, 1:
 			emit(Case{Gen: "G4-quoted-field", Kind: "quoted", S: f + `:"` + w + `"`, Aux: f, Want: w, Idx: i})
@@ -735,6 +752,9 @@ func specC08(c *Case, ps []*Probe) []string {
 	}
 	w, f := c.Want, c.Aux
 	q := ps[0]
+	if c.Rel == "range" || c.Rel == "list" || c.Rel == "cmp" {
+		return specC08Positions(c, ps)
+	}
 	wantTree := fmt.Sprintf("ok:(E 3 (E 11 c:%s nil f:3ff0000000000000 i:1) (E 11 s:%s nil f:3ff0000000000000 i:1) f:3ff0000000000000 i:1)", impl.Hex(f), impl.Hex(w))
 	var out []string
 	if q.Impl["P"] != wantTree {
@@ -761,6 +781,53 @@ func specC08(c *Case, ps []*Probe) []string {
 	return out
 }
 
+// specC08Positions: the quoted text as a range bound, a value-list item and a comparison value.
+func specC08Positions(c *Case, ps []*Probe) []string {
+	w, w2, f := c.Want, c.S2, c.Aux
+	q := ps[0]
+	t := ParseCanon(q.Impl["P"])
+	isStr := func(n *CNode, want string) bool {
+		return n != nil && n.Kind == "expr" && n.Op == 11 && n.leafPrim() == "s:"+hexEncode(want) && n.R != nil && n.R.Kind == "nil"
+	}
+	isCol := func(n *CNode) bool { return n != nil && n.Kind == "expr" && n.Op == 11 && n.leafPrim() == "c:"+hexEncode(f) }
+	treeOK := false
+	var wantSQL, wantPP string
+	if t != nil && t.Kind == "expr" && isCol(t.L) {
+		switch c.Rel {
+		case "range":
+			treeOK = t.Op == 6 && t.R != nil && t.R.Kind == "bound" && t.R.Incl && isStr(t.R.L, w) && isStr(t.R.R, w2)
+			wantSQL = fmt.Sprintf("1:(between (col %s) (str %s) (str %s))", impl.Hex(f), impl.Hex(w), impl.Hex(w2))
+			wantPP = "ok:" + impl.Hex(`"`+f+`" BETWEEN ? AND ?`) + "|s:" + impl.Hex(w) + ",s:" + impl.Hex(w2)
+		case "list":
+			r := t.R
+			treeOK = t.Op == 18 && r != nil && r.Kind == "expr" && r.Op == 19 && r.L != nil && r.L.Kind == "list" && len(r.L.Elems) == 2 &&
+				isStr(r.L.Elems[0], w) && isStr(r.L.Elems[1], w2)
+			wantSQL = fmt.Sprintf("1:(in (col %s) (str %s) (str %s))", impl.Hex(f), impl.Hex(w), impl.Hex(w2))
+			wantPP = "ok:" + impl.Hex(`"`+f+`" IN (?, ?)`) + "|s:" + impl.Hex(w) + ",s:" + impl.Hex(w2)
+		default:
+			treeOK = t.Op == 16 && isStr(t.R, w)
+			wantSQL = fmt.Sprintf("1:(>= (col %s) (str %s))", impl.Hex(f), impl.Hex(w))
+			wantPP = "ok:" + impl.Hex(`"`+f+`" >= ?`) + "|s:" + impl.Hex(w)
+		}
+	}
+	if !treeOK {
+		return []string{"the value does not arrive in the tree as one plain string equal to the text (" + c.Rel + " position)"}
+	}
+	if !utf8.ValidString(w+w2) || strings.ContainsRune(w+w2, 0) {
+		return nil
+	}
+	var out []string
+	if !strings.HasPrefix(q.Impl["PG"], "ok:") {
+		out = append(out, "ToPostgres fails on a quoted value ("+c.Rel+" position): "+q.Impl["PG"])
+	} else if len(ps) > 1 && ps[1].Model["OK"] != wantSQL {
+		out = append(out, "PostgreSQL does not decode the inline constant back to the text ("+c.Rel+" position): "+ps[1].Model["OK"])
+	}
+	if q.Impl["PP"] != wantPP {
+		out = append(out, "the value does not travel verbatim as a string parameter ("+c.Rel+" position)")
+	}
+	return out
+}
+
 // specC11: same acceptance with and without the default field; erasure gives back the plain tree; no bare term remains.
 func specC11(c *Case, ps []*Probe) []string {
 	if c.Kind != "dfpair" || len(ps) < 2 {
@@ -774,6 +841,27 @@ func specC11(c *Case, ps []*Probe) []string {
 }
 
 var dfNames = []string{"df", "d f", "x'y", "dflt_1", "Ünï", " df", "df ", "\tdf\n", " ", "\t"}
+
+var embedContexts = []string{"f:(%s)", "f:>(%s)", "f:<=(%s)", "f=(%s)", "f:[(%s) TO 5]", "f:[1 TO (%s)]", "(%s):x", "(%s):x*", "f:((%s):c*)", "f:((%s):(c OR d))",
+	"f:((%s):[1 TO 5])", "NOT (%s)", "x AND f:(%s)", "f:(%s)^2", "f:(%s)~", "+(%s)", "f:(x:y AND %s)", "f:(a:[(%s) TO d])", "g:(f:(%s))"}
+
+// genEmbedded: short token sequences (most of them rejected on their own, many for a structural reason) placed inside a
+// larger construct — value side of a field, range bound, field position, operand — where a validator that stops
+// descending would let them through.
+func genEmbedded(rng *gen.Rng, count int, dfs []string, emit func(Case)) {
+	for i := 0; i < count; i++ {
+		n := 1 + rng.Intn(5)
+		parts := make([]string, n)
+		for k := range parts {
+			parts[k] = gen.Pick(rng, gen.Alphabet)
+		}
+		inner := strings.Join(parts, " ")
+		if rng.Chance(1, 3) {
+			inner = gen.Pick(rng, []string{"a:b:c", "(a:b):c*", "(a:b):(c OR d)", "(a:b):[1 TO 5]", "a:[(b OR c) TO d]", "a:[b:c TO 5]", "a:(b OR c*)", "(p:q):r", "NOT", "a:", "() NOT a"})
+		}
+		emit(Case{Gen: "G3-embedded", Kind: "q", S: fmt.Sprintf(gen.Pick(rng, embedContexts), inner), DF: gen.Pick(rng, dfs), Idx: i})
+	}
+}
 
 // genDfPairs (C11): token sequences and trees, each with a default field that does not occur in the query.
 func genDfPairs(rng *gen.Rng, seqLen, seqSample, trees int, emit func(Case)) {
@@ -873,6 +961,7 @@ func init() {
 			s := gen.ByteString(rng, 1+rng.Intn(10))
 			e(Case{Gen: "G3-bytes", Kind: "q", S: s, DF: gen.Pick(rng, gen.DefaultFields), Idx: i})
 		}
+		genEmbedded(rng, tiered(cfg, 60000, 1500000), gen.DefaultFields, e)
 	}})
 	add(&Property{ID: "C02", Fields: fields("P", "PG", "PP"), Spec: specFromProbes(""), Generate: func(cfg RunConfig, emit func(Case)) {
 		rng := gen.NewRng(cfg.Seed, 2)
@@ -950,6 +1039,7 @@ func init() {
 		for i := 0; i < tiered(cfg, 40000, 800000); i++ {
 			der(Case{Gen: "G4-fieldquery", Kind: "q", S: gen.FieldQuery(rng), DF: gen.Pick(rng, []string{"", "", "df"}), Idx: i})
 		}
+		genEmbedded(rng, tiered(cfg, 40000, 1000000), []string{"", "", "df"}, der)
 	}})
 	add(&Property{ID: "C07", Fields: fields("P"), Spec: specPair, Generate: func(cfg RunConfig, emit func(Case)) {
 		rng := gen.NewRng(cfg.Seed, 7)
